@@ -78,3 +78,6 @@ pub use crate::policy::immix::line::Line;
 
 /// `util::metadata::side_metadata::{layout, spec_defs}`: the core spec tables and the reserved-range computation.
 pub use crate::util::metadata::side_metadata::verif_hooks_layout as side_layout;
+
+/// `util::metadata::vo_bit` crate-visible lookups (valid-object bit, interior pointers).
+pub use crate::util::metadata::vo_bit::verif_hooks as vo_bit;
